@@ -28,6 +28,10 @@ def covers(maxc):
                 yield [list(c) for c in cov]
 
 
+ONE_CLIQUE_COVERS = [
+    [[0, 1, 2], [2, 3], [4]], [[0], [1]], [[0, 1], [2]], [[2], [0, 1]], [[0, 1, 2, 3], [4], [5], [4, 5]],
+    [[0], [0, 1], [0, 1, 2]],
+]
 BIG_COVERS = [
     [list(range(8)), [0, 8]],                                   # sizes {2, 8}
     [[0, 8], list(range(8))],
@@ -41,6 +45,7 @@ BIG_COVERS = [
 
 def instances(tier, seed):
     yield {"covers": BIG_COVERS, "no_shift": True}
+    yield {"covers": ONE_CLIQUE_COVERS}
     # four cliques (repetitions included) on the vertices {0..3}
     subs4 = [list(c) for k in range(2, 5) for c in itertools.combinations(range(4), k)]
     batch = []
